@@ -136,6 +136,25 @@ def frame_value(p: Point, f_locals: Optional[V] = None, extra: Optional[Dict[str
     return R("frame", **fields)
 
 
+def real_class(tok: V) -> Any:
+    """the platform class a class token stands for (builtins / collections read as data; a user class is a fresh
+    subclass of object)"""
+    import builtins as _b
+    import collections as _c
+    if isinstance(tok, S):
+        if tok.name.startswith("builtin:"):
+            return getattr(_b, tok.name[8:], None)
+        if tok.name.startswith("mod:collections."):
+            return getattr(_c, tok.name[16:], None)
+        if tok.name.startswith("mod:typing."):
+            import typing as _t
+            o = getattr(_t, tok.name[11:], None)
+            return o if isinstance(o, type) else None
+        if tok.name.startswith("class:app."):
+            return type(tok.name[10:], (), {})
+    return None
+
+
 TRACER_INLINE_STOP = {"get_type", "get_func", "get_func_in_mro", "_has_code", "get_previous_frames", "get_locals_from_previous_frames"}
 
 
@@ -158,6 +177,11 @@ class TracerScenario:
         self.cache_hit = cache_hit
         mod = fi.module
         inline = {f.fq for f in mod.functions.values() if f.qualname.split(".")[-1] not in TRACER_INLINE_STOP}
+        # helpers the tracer may delegate to in the package's utility modules
+        for um in ("monkeytype.util", "monkeytype.compat"):
+            umod = repo.modules.get(um)
+            if umod is not None:
+                inline |= {f.fq for f in umod.functions.values() if f.qualname.split(".")[-1] not in TRACER_INLINE_STOP and f.qualname not in ("get_func_fqname",)}
         self.ri = RepoInterp(repo, fi, oracle=oracle, inline=inline, may_fork=may_fork, call_hook=self.call_hook, heap=True)
         self.ri.on_attr = self._on_attr  # type: ignore[method-assign]
         self.ri.interp.on_attr = self._on_attr
@@ -220,6 +244,18 @@ class TracerScenario:
 
     def call_hook(self, call: ast.Call, fname: Optional[str], fval: Optional[V], args: List[V], kwargs: Dict[str, V], st: State) -> Optional[V]:
         meth = call.func.attr if isinstance(call.func, ast.Attribute) else None
+        # a symbolic program value S('val:<n>') / S('arg') is a plain instance of a user class of its own
+        if len(args) == 1 and isinstance(args[0], S) and (args[0].name.startswith("val:") or args[0].name == "arg") and not kwargs:
+            if fname == "type":
+                return S("class:app.ClassOf_" + args[0].name.replace(":", "_"))
+            if fname == "id":
+                return R("id", of=args[0])
+        if fname == "issubclass" and len(args) == 2:
+            a = real_class(args[0])
+            seq = list(args[1].v) if isinstance(args[1], K) and isinstance(args[1].v, tuple) else [args[1]]
+            real = [real_class(b) for b in seq]
+            if a is not None and all(b is not None for b in real):
+                return K(any(issubclass(a, b) for b in real))
         if isinstance(fval, S) and fval.name == "self.traces":
             if meth == "get":
                 if self.trace_in_table is None:
@@ -258,6 +294,9 @@ class TracerScenario:
             if tail == "get_func":
                 st.effects.append(("get_func", tuple(args)))
                 return self.func_value if self.func_value is not None else U("get_func")
+        if fname is not None and fname.split(".")[0] == "random" and fname.split(".")[-1] in ("getstate", "setstate", "seed"):
+            st.effects.append(("rng-state", fname))
+            return R("rngstate") if fname.endswith("getstate") else K(None)
         if fname is not None and fname.split(".")[-1] in ("randrange", "randint", "random", "choice", "getrandbits", "uniform") and fname.split(".")[0] in ("random",):
             st.effects.append(("draw", fname, tuple(args)))
             if self.draw is not None:
@@ -271,7 +310,7 @@ class TracerScenario:
         return self.ri.run(e, carry=carry)
 
 
-RELEVANT = ("setattr", "setitem", "delitem", "logger.", "trace.", "get_type", "draw", "CallTrace", "get_func", "KeyError", "IndexError", "del")
+RELEVANT = ("setattr", "setitem", "delitem", "logger.", "trace.", "get_type", "draw", "rng-state", "CallTrace", "get_func", "KeyError", "IndexError", "del")
 
 
 def relevant(effects: List[Tuple[Any, ...]]) -> List[Tuple[Any, ...]]:
